@@ -15,7 +15,7 @@
       - the random placeholders: they never reach the output (C13). *)
 From Coq Require Import List NArith Bool String Permutation Sorted.
 From RG Require Import Base.Str Base.Dec Model.Url Model.Href Model.Fs Model.Site Spec.SiteSpec
-  Proofs.SiteCache Proofs.SiteSort.
+  Proofs.SiteCache Proofs.SiteSort Proofs.SiteBuild Proofs.SiteOrder.
 Import ListNotations.
 Open Scope string_scope.
 Open Scope list_scope.
@@ -87,6 +87,71 @@ Proof.
   split; [apply perm_swap | vm_compute; discriminate].
 Qed.
 Print Assumptions C17_sorted_equal_keys_refuted.
+
+(** [stree_perm t t'] (Proofs/SiteOrder.v): [t'] is [t] with the entries of every directory
+    listed in another order.  For a tree with unique names per directory, construction under
+    the two orders returns the SAME page hierarchy (home page, category trees with their sorted
+    sub-category and recipe lists, every title and address) and leaves the same pages in
+    [recipe_pages] for every recipe source - or raises in both (possibly a different error
+    class: with several defects in one tree the first one met depends on the order).
+
+    Full statement wanted: [generate_static_site E fs' input M] = [generate_static_site E fs input
+    M] up to the error class, for file systems that differ in the order of directory entries
+    ([node_perm], Spec/SiteSpec.v).  Proved here: the construction of the hierarchy (everything
+    the listing order can influence: [iterdir] is only used by [enumerate_recipe_directory]).
+    NOT proved (hence [_partial]): that [Path.resolve] / [view] of the abstract file system
+    ignore the order of [NDir] entries, and that rendering reads [recipe_pages] only at recipe
+    sources; both are exercised by the correspondence suite `site-order` (every tree under
+    three listing orders, model and implementation compared on each, output hashes equal). *)
+Theorem C17_order_invariant_partial : forall E t t' root M, stree_perm t t' -> uniq_names t ->
+  match from_root_directory E t root M, from_root_directory E t' root M with
+  | Ok (hm, h), Ok (hm', h') =>
+      hm = hm' /\
+      forall P src data mes, In (src, data, mes) (asources E t root P true) ->
+        P = (fun _ : option N => [(h_title hm, home_path)]) -> heap_get src h = heap_get src h'
+  | Err _, Err _ => True
+  | _, _ => False
+  end.
+Proof. exact from_root_directory_perm. Qed.
+Print Assumptions C17_order_invariant_partial.
+
+(** one pass over one directory tree, map-free form: identical results *)
+Theorem C17_pass_order_invariant : forall E t t', stree_perm t t' -> uniq_names t ->
+  forall j sv dp P is_root, out_equiv (pure_dir E j sv t dp P is_root) (pure_dir E j sv t' dp P is_root).
+Proof. intros E t t' H. exact (pure_dir_perm E t t' H). Qed.
+Print Assumptions C17_pass_order_invariant.
+
+Ltac perm_solve :=
+  repeat first
+    [ apply Permutation_refl
+    | match goal with
+      | |- Permutation (?a :: ?l) ?t =>
+          let rec go pre t0 :=
+            lazymatch t0 with
+            | a :: ?r => apply (Permutation_cons_app pre r a)
+            | ?b :: ?r => go (pre ++ [b]) r
+            end in
+          go (@nil stree) t; cbn [app]
+      end ].
+
+(** the hypotheses are satisfiable: the two listings of the demonstration tree *)
+Example C17_order_invariant_hyp_ex :
+  exists t t', view_root demo_fs demo_root = Some t /\ view_root demo_fs' demo_root = Some t' /\
+               stree_perm t t' /\ uniq_names t.
+Proof.
+  destruct (view_root demo_fs demo_root) as [t|] eqn:Hv; [|vm_compute in Hv; discriminate].
+  destruct (view_root demo_fs' demo_root) as [t'|] eqn:Hv'; [|vm_compute in Hv'; discriminate].
+  exists t, t'. split; [reflexivity|]. split; [reflexivity|].
+  vm_compute in Hv, Hv'. inversion Hv; subst t. inversion Hv'; subst t'. clear Hv Hv'. split.
+  - match goal with |- stree_perm (SDir ?n ?rn [?r; ?a; ?p; SDir ?sn ?srn [?b; ?i; ?e]; ?l1; ?l2]) _ =>
+      apply (SP_dir n rn _ [r; a; p; SDir sn srn [e; b; i]; l1; l2]) end.
+    + repeat (first [apply Forall2_nil | apply Forall2_cons | apply SP_file | apply SP_broken]).
+      match goal with |- stree_perm (SDir ?sn ?srn [?b; ?i; ?e]) _ => apply (SP_dir sn srn _ [b; i; e]) end.
+      * repeat (first [apply Forall2_nil | apply Forall2_cons | apply SP_file | apply SP_broken]).
+      * perm_solve.
+    + perm_solve.
+  - cbn [uniq_names map sname]. repeat split; repeat constructor; cbv; intuition discriminate.
+Qed.
 
 (** the two listings of the demonstration tree give the same site *)
 Example C17_order_invariant_ex :
